@@ -33,112 +33,36 @@
 //   maxlen K B              length of the text of the largest (and smallest) value of the kind in base B
 //   atorep K B LEN PAT TAIL igris_ato<K> on PAT repeated to LEN bytes followed by TAIL (long inputs)
 //   seq   K V B1,B2,..      the same value rendered into ONE buffer in several bases, one after the other
-//   twin toa|ato|h2h ...    the same operation on the unanchored copy in igris/container/std_portable.h (finding
-//                           C07-std-portable-twin: every defect repaired in numconvert.c is still in that copy)
+//   twin <op> ...           the same operation (toa ato h2h rng sweep maxlen atorep seq) on the unanchored copy of the
+//                           routines in igris/container/std_portable.h (repaired in round 3b; compared with the same model)
 //   asml  W V1 [V2 V3 V4]   debug_asmlink_args<W>x<N>; asmr V: debug_asmlink_ret8..64, _test, dprptr(V), dprptrln(V), debug_print(NULL)
-#include "common/hv.h"
-#include <array>
-#include <climits>
-#include <cerrno>
+// round 3b:
+//   dpr hex_u4x|bin_u4x V   debug_printhex_uint4 / debug_printbin_uint4 with the unmasked uint8_t argument (generated for 0..15)
+//   consts                  compared: platform + the types an entry point's name fixes; tags: base / size / length parameter types
+// The harness is four translation units (this one: oracle references, renderer ops, sweeps, dispatch; C07_parse.cpp,
+// C07_dprint.cpp, C07_gen.cpp) + C07_libc.c + C07_twin.cpp, see C07_common.h.
+#include "C07_common.h"
 #include <igris/util/numconvert.h>
 #include <igris/util/hexascii.h>
 #include <igris/util/ctype.h>
 #include <igris/dprint/dprint.h>
 #include <igris/defs/vt100.h>
-#include <type_traits>
-#include <ctype.h>
 
 static_assert(sizeof(long) == 8 && sizeof(int) == 4 && sizeof(short) == 2, "LP64 assumed by the model");
 static_assert(CHAR_MIN < 0, "char is signed (model: digit_value compares a signed char)");
 static_assert((int8_t)(uint8_t)0x80 == -128 && (int32_t)0x80000000u == INT32_MIN, "modular narrowing");
 
-extern "C"
-{
-    char *igv_itoa(int, char *, unsigned short);
-    char *igv_utoa(unsigned, char *, unsigned short);
-    char *igv_ltoa(long, char *, unsigned short);
-    char *igv_ultoa(unsigned long, char *, unsigned short);
-    long igv_atol(const char *);
-    int igv_atoi(const char *);
-    // defined in dprint_func_impl.c, not declared in dprint.h
-    void debug_printdec_uint8(uint8_t);
-    void debug_printdec_uint16(uint16_t);
-    void debug_printdec_uint32(uint32_t);
-    void debug_printdec_uint64(uint64_t);
-    void debug_printhex_n(uint8_t *, int);
-    void dprptr(const void *);
-    void dprptrln(const void *);
-    void c07_asmlink_args(int, int, const uint64_t *);
-    uint64_t c07_asmlink_ret(int);
-    void c07_asmlink_test(void);
-    // harness/C07_twin.cpp: the copy in igris/container/std_portable.h
-    char *c07_twin_toa(int k, unsigned long long v, char *buf, unsigned char base);
-    unsigned long long c07_twin_ato(int k, const char *buf, unsigned char base, char **end);
-    unsigned char c07_twin_hex2half(char c);
-}
-
-// the platform hook of the debug-print library: capture the characters
-// (a plain zero-initialised array: usable from a constructor that runs before main())
-static char g_cap[1 << 21];
-static size_t g_cap_n;
-extern "C" void debug_putchar(char c) { if (g_cap_n < sizeof g_cap) g_cap[g_cap_n] = c; g_cap_n++; }
-static void cap_clear() { g_cap_n = 0; }
-static std::string cap_str() { return std::string(g_cap, g_cap_n < sizeof g_cap ? g_cap_n : sizeof g_cap); }
-
-// calls made before main(): static-initialisation-order dependencies of the routines (there must be none)
-struct PreMain
-{
-    char a[16], b[72], f[16], d[40], e[16];
-    uint32_t cv; long ce; size_t dn, en;
-    PreMain()
-    {
-        igris_i32toa(INT32_MIN, a, 10);
-        igris_u64toa(~0ull, b, 2);
-        char *end = 0;
-        static const char t[] = "4294967295";
-        cv = igris_atou32(t, 10, &end);
-        ce = end - t;
-        g_cap_n = 0;
-        debug_printdec_signed_long_long(LLONG_MIN);
-        dn = g_cap_n < sizeof d ? g_cap_n : sizeof d;
-        memcpy(d, g_cap, dn);
-        g_cap_n = 0;
-        debug_printhex_uint32(0xDEADBEEFu);
-        en = g_cap_n < sizeof e ? g_cap_n : sizeof e;
-        memcpy(e, g_cap, en);
-        g_cap_n = 0;
-        igv_itoa(-255, f, 16);
-    }
-};
-__attribute__((init_priority(101))) static PreMain g_pre;
-// debug_write comes from igris/dprint/dprint_manually.c (weak, loops over debug_putchar)
-
-using namespace hv;
-typedef std::vector<uint8_t> bytes;
-typedef unsigned __int128 u128;
-
 // ------------------------------------------------------------------ kinds
-enum { I8, I16, I32, I64, U8, U16, U32, U64, NKIND };
-static const char *KNAME[NKIND] = {"i8", "i16", "i32", "i64", "u8", "u16", "u32", "u64"};
-static const int KBITS[NKIND] = {8, 16, 32, 64, 8, 16, 32, 64};
-static bool ksigned(int k) { return k < 4; }
-static int kind_of(const std::string &s)
+const char *const KNAME[NKIND] = {"i8", "i16", "i32", "i64", "u8", "u16", "u32", "u64"};
+const int KBITS[NKIND] = {8, 16, 32, 64, 8, 16, 32, 64};
+int kind_of(const std::string &s)
 {
     for (int k = 0; k < NKIND; k++)
         if (s == KNAME[k]) return k;
     return -1;
 }
-static uint64_t wmask(int bits) { return bits == 64 ? ~0ull : ((1ull << bits) - 1); }
-// 64-bit pattern of a w-bit pattern, sign- or zero-extended
-static uint64_t extend(uint64_t v, int bits, bool sgn)
-{
-    v &= wmask(bits);
-    if (sgn && bits < 64 && (v >> (bits - 1)) & 1) v |= ~wmask(bits);
-    return v;
-}
-
-static bool g_twin = false; // route call_toa / call_ato / hex2half to the std_portable.h copy
-static char *call_toa(int k, uint64_t v, char *buf, uint8_t base)
+bool g_twin = false; // route call_toa / call_ato / hex2half to the std_portable.h copy
+char *call_toa(int k, uint64_t v, char *buf, uint8_t base)
 {
     if (g_twin) return c07_twin_toa(k, v, buf, base);
     switch (k)
@@ -154,7 +78,7 @@ static char *call_toa(int k, uint64_t v, char *buf, uint8_t base)
     }
 }
 // returns the w-bit pattern of the result
-static uint64_t call_ato(int k, const char *buf, uint8_t base, char **end)
+uint64_t call_ato(int k, const char *buf, uint8_t base, char **end)
 {
     if (g_twin) return c07_twin_ato(k, buf, base, end);
     switch (k)
@@ -171,12 +95,12 @@ static uint64_t call_ato(int k, const char *buf, uint8_t base, char **end)
 }
 
 // ------------------------------------------------------------------ references (oracle)
-static const char AL_LO[] = "0123456789abcdefghijklmnopqrstuvwxyz";
-static const char AL_UP[] = "0123456789ABCDEFGHIJKLMNOPQRSTUVWXYZ";
+extern const char AL_LO[]  = "0123456789abcdefghijklmnopqrstuvwxyz";
+extern const char AL_UP[]  = "0123456789ABCDEFGHIJKLMNOPQRSTUVWXYZ";
 
 // Canonical digits, most significant first, produced from the HIGHEST power
 // downwards (the code under test divides from the least significant end).
-static int ref_digits(uint64_t mag, unsigned base, const char *al, char *out)
+int ref_digits(uint64_t mag, unsigned base, const char *al, char *out)
 {
     u128 p = 1;
     while (p * base <= (u128)mag) p *= base;
@@ -192,7 +116,7 @@ static int ref_digits(uint64_t mag, unsigned base, const char *al, char *out)
     return n;
 }
 // canonical text of the w-bit pattern v interpreted as signed/unsigned
-static int ref_text(uint64_t v, int bits, bool sgn, unsigned base, bool upper, char *out)
+int ref_text(uint64_t v, int bits, bool sgn, unsigned base, bool upper, char *out)
 {
     int n = 0;
     uint64_t mag = v & wmask(bits);
@@ -205,14 +129,14 @@ static int ref_text(uint64_t v, int bits, bool sgn, unsigned base, bool upper, c
     out[n] = 0;
     return n;
 }
-static int ref_dv(uint8_t c)
+int ref_dv(uint8_t c)
 {
     for (int i = 0; i < 36; i++)
         if (c == (uint8_t)AL_LO[i] || c == (uint8_t)AL_UP[i]) return i;
     return 1000;
 }
 // value (mod 2^bits) and end offset of the longest digit prefix in `base`
-static uint64_t ref_parse(const uint8_t *s, int bits, bool sgn, unsigned base, size_t *end, bool *wrapped = 0)
+uint64_t ref_parse(const uint8_t *s, int bits, bool sgn, unsigned base, size_t *end, bool *wrapped)
 {
     size_t i = 0;
     bool neg = false;
@@ -232,7 +156,7 @@ static uint64_t ref_parse(const uint8_t *s, int bits, bool sgn, unsigned base, s
     if (neg) r = 0 - r;
     return r & wmask(bits);
 }
-static std::string flipcase(const std::string &s)
+std::string flipcase(const std::string &s)
 {
     std::string r = s;
     for (auto &c : r)
@@ -240,7 +164,7 @@ static std::string flipcase(const std::string &s)
         else if (c >= 'A' && c <= 'Z') c = (char)(c + 32);
     return r;
 }
-static std::string show(const std::string &s)
+std::string show(const std::string &s)
 {
     std::string r;
     for (unsigned char c : s)
@@ -249,12 +173,6 @@ static std::string show(const std::string &s)
     return r;
 }
 
-struct fnv
-{
-    uint64_t h = 14695981039346656037ull;
-    void byte(uint8_t b) { h = (h ^ b) * 1099511628211ull; }
-    void le64(uint64_t v) { for (int i = 0; i < 8; i++) byte((uint8_t)(v >> (8 * i))); }
-};
 
 // One value through toa + ato.  `buf` is placed so that it ENDS at the end of a
 // heap block (ASan flags any write past the canonical length + 1).
@@ -317,72 +235,6 @@ static void roundtrip(int k, uint64_t v, unsigned base, out &o, RoundTrip &r, bo
                    std::to_string(r.endf) + " (case-flipped text of " + hexn(want, bits / 4) + ")");
     }
 }
-
-// ------------------------------------------------------------------ debug printers
-struct DFn { const char *name; int bits; bool sgn; char fmt; void (*call)(uint64_t); };
-#define DF(nm, bits, sgn, fmt, expr) {nm, bits, sgn, fmt, [](uint64_t v) { expr; }}
-static const DFn DFNS[] = {
-    DF("dec_u8", 8, false, 'd', debug_printdec_uint8((uint8_t)v)),
-    DF("dec_u16", 16, false, 'd', debug_printdec_uint16((uint16_t)v)),
-    DF("dec_u32", 32, false, 'd', debug_printdec_uint32((uint32_t)v)),
-    DF("dec_u64", 64, false, 'd', debug_printdec_uint64((uint64_t)v)),
-    DF("dec_uc", 8, false, 'd', debug_printdec_unsigned_char((unsigned char)v)),
-    DF("dec_us", 16, false, 'd', debug_printdec_unsigned_short((unsigned short)v)),
-    DF("dec_ui", 32, false, 'd', debug_printdec_unsigned_int((unsigned int)v)),
-    DF("dec_ul", 64, false, 'd', debug_printdec_unsigned_long((unsigned long)v)),
-    DF("dec_ull", 64, false, 'd', debug_printdec_unsigned_long_long((unsigned long long)v)),
-    DF("dec_sc", 8, true, 'd', debug_printdec_signed_char((signed char)v)),
-    DF("dec_ss", 16, true, 'd', debug_printdec_signed_short((signed short)v)),
-    DF("dec_si", 32, true, 'd', debug_printdec_signed_int((signed int)v)),
-    DF("dec_sl", 64, true, 'd', debug_printdec_signed_long((signed long)v)),
-    DF("dec_sll", 64, true, 'd', debug_printdec_signed_long_long((signed long long)v)),
-    DF("hex_u4", 4, false, 'x', debug_printhex_uint4((uint8_t)(v & 15))),
-    DF("hex_u8", 8, false, 'x', debug_printhex_uint8((uint8_t)v)),
-    DF("hex_u16", 16, false, 'x', debug_printhex_uint16((uint16_t)v)),
-    DF("hex_u32", 32, false, 'x', debug_printhex_uint32((uint32_t)v)),
-    DF("hex_u64", 64, false, 'x', debug_printhex_uint64((uint64_t)v)),
-    DF("hex_c", 8, false, 'x', debug_printhex_char((char)v)),
-    DF("hex_uc", 8, false, 'x', debug_printhex_unsigned_char((unsigned char)v)),
-    DF("hex_us", 16, false, 'x', debug_printhex_unsigned_short((unsigned short)v)),
-    DF("hex_ui", 32, false, 'x', debug_printhex_unsigned_int((unsigned int)v)),
-    DF("hex_ul", 64, false, 'x', debug_printhex_unsigned_long((unsigned long)v)),
-    DF("hex_ull", 64, false, 'x', debug_printhex_unsigned_long_long((unsigned long long)v)),
-    DF("hex_sc", 8, false, 'x', debug_printhex_signed_char((signed char)v)),
-    DF("hex_ss", 16, false, 'x', debug_printhex_signed_short((signed short)v)),
-    DF("hex_si", 32, false, 'x', debug_printhex_signed_int((signed int)v)),
-    DF("hex_sl", 64, false, 'x', debug_printhex_signed_long((signed long)v)),
-    DF("hex_sll", 64, false, 'x', debug_printhex_signed_long_long((signed long long)v)),
-    DF("hex_ptr", 64, false, 'x', debug_printhex_ptr((const void *)(uintptr_t)v)),
-    DF("bin_u4", 4, false, 'b', debug_printbin_uint4((uint8_t)(v & 15))),
-    DF("bin_u8", 8, false, 'b', debug_printbin_uint8((uint8_t)v)),
-    DF("bin_u16", 16, false, 'b', debug_printbin_uint16((uint16_t)v)),
-    DF("bin_u32", 32, false, 'b', debug_printbin_uint32((uint32_t)v)),
-    DF("bin_u64", 64, false, 'b', debug_printbin_uint64((uint64_t)v)),
-};
-static const int NDFN = sizeof DFNS / sizeof DFNS[0];
-
-// decimal: the canonical text; hex/bin: the canonical upper-case digits
-// zero-padded to the full width of the type
-static std::string ref_dprint(const DFn &f, uint64_t v)
-{
-    char t[80];
-    if (f.fmt == 'd')
-    {
-        // glibc as an independent reference for base 10
-        uint64_t x = extend(v, f.bits, f.sgn);
-        if (f.sgn) snprintf(t, sizeof t, "%lld", (long long)x);
-        else snprintf(t, sizeof t, "%llu", (unsigned long long)x);
-        return t;
-    }
-    unsigned base = f.fmt == 'x' ? 16 : 2;
-    int width = f.fmt == 'x' ? f.bits / 4 : f.bits;
-    int n = ref_text(v, f.bits, false, base, true, t);
-    return std::string(width - n, '0') + t;
-}
-
-// ------------------------------------------------------------------ run
-static uint64_t h64(const std::string &s) { return strtoull(s.c_str(), 0, 16); }
-
 static void run_toa(const std::vector<std::string> &w, out &o)
 {
     int k = kind_of(w[1]);
@@ -515,550 +367,6 @@ static void run_rng(const std::vector<std::string> &w, out &o, bool sweep)
     o.result = hexn(h.h, 16) + " " + hex(r.raw);
 }
 
-static void run_ato(const std::vector<std::string> &w, out &o)
-{
-    int k = kind_of(w[1]);
-    unsigned base = (unsigned)strtoul(w[2].c_str(), 0, 10);
-    bytes s = unhex(w[3]);
-    int bits = KBITS[k];
-    if (s.empty() || s.back() != 0) { o.result = "bad-op"; return; }
-    exact_buf b(s);
-    char *e = 0;
-    uint64_t v = call_ato(k, (const char *)b.p, (uint8_t)base, &e);
-    long end = e ? e - (char *)b.p : -1;
-    o.result = hexn(v, bits / 4) + " " + std::to_string(end);
-    size_t rend;
-    bool wrapped;
-    uint64_t rv = ref_parse(s.data(), bits, ksigned(k), base, &rend, &wrapped);
-    std::string txt((char *)s.data(), s.size() - 1);
-    if (v != rv)
-        o.fail(std::string("igris_ato") + KNAME[k] + "(`" + show(txt) + "`, base " + std::to_string(base) + ") = " + hexn(v, bits / 4) + ", digits of that base give " + hexn(rv, bits / 4));
-    if (end != (long)rend)
-        o.fail(std::string("igris_ato") + KNAME[k] + "(`" + show(txt) + "`, base " + std::to_string(base) + ") reports end offset " + std::to_string(end) +
-               ", first character that cannot continue the number is at " + std::to_string(rend));
-    // the same call without an end pointer
-    uint64_t v2 = call_ato(k, (const char *)b.p, (uint8_t)base, 0);
-    if (v2 != v) o.fail("value differs when end == NULL");
-    // the usual idiom `p = ...; v = ato(p, base, &p)`: end aliases the caller's own pointer
-    {
-        char *pp = (char *)b.p;
-        uint64_t v3 = call_ato(k, pp, (uint8_t)base, &pp);
-        if (v3 != v || pp != e) o.fail("value / end differ when end aliases the string pointer");
-    }
-    // glibc as a second opinion where its grammar coincides (no sign/space/0x handling involved)
-    if (base >= 2 && base <= 36 && !wrapped && rend > 0 && !(base == 16 && s.size() > 1 && (s[1] == 'x' || s[1] == 'X')) && ref_dv(s[0]) < (int)base)
-    {
-        errno = 0;
-        char *ge;
-        unsigned long long g = strtoull((const char *)s.data(), &ge, (int)base);
-        if (errno == 0 && ((g & wmask(bits)) != rv || (size_t)(ge - (char *)s.data()) != rend))
-            o.fail("harness reference disagrees with strtoull");
-    }
-    o.tag(KNAME[k]);
-    size_t first = (ksigned(k) && s[0] == '-') ? 1 : 0;
-    if (first) o.tag("minus");
-    if (rend == first) o.tag("no-digits");
-    if (wrapped) o.tag("wraps");
-    uint8_t t = s[rend];
-    if (t == 0) o.tag("term-nul");
-    else if (ref_dv(t) < 36) o.tag("term-digit-of-larger-base");
-    else if (t >= 0x80) o.tag("term-high-bit");
-    bool lo = false, up = false;
-    for (size_t i = first; i < rend; i++) { if (s[i] >= 'a') lo = true; else if (s[i] >= 'A') up = true; }
-    if (lo) o.tag("lower-case");
-    if (up) o.tag("upper-case");
-    if (base < 2 || base > 36) o.tag("base-out-of-range");
-}
-
-static void run_lc(const std::vector<std::string> &w, out &o)
-{
-    const std::string &fn = w[1];
-    unsigned base = (unsigned)strtoul(w[2].c_str(), 0, 10);
-    uint64_t v = h64(w[3]);
-    int bits = (fn == "itoa" || fn == "utoa") ? 32 : 64;
-    bool sgn = fn == "itoa" || fn == "ltoa";
-    bool valid = base >= 2 && base <= 36;
-    char ref[80];
-    int len = valid ? ref_text(v, bits, sgn, base, false, ref) : 0;
-    ref[len] = 0;
-    exact_buf b((size_t)len + 1);
-    char *r;
-    if (fn == "itoa") r = igv_itoa((int)v, (char *)b.p, (unsigned short)base);
-    else if (fn == "utoa") r = igv_utoa((unsigned)v, (char *)b.p, (unsigned short)base);
-    else if (fn == "ltoa") r = igv_ltoa((long)v, (char *)b.p, (unsigned short)base);
-    else r = igv_ultoa((unsigned long)v, (char *)b.p, (unsigned short)base);
-    o.result = hex(b.p, b.n) + " " + std::to_string(r - (char *)b.p);
-    if (memcmp(b.p, ref, len + 1))
-        o.fail(fn + "(" + hexn(v, 16) + ", base " + std::to_string(base) + ") wrote `" + show(std::string((char *)b.p, len + 1)) + "`, canonical text is `" + ref + "`");
-    if (r != (char *)b.p) o.fail(fn + " did not return buf");
-    if (!valid) { o.tag("base-out-of-range"); return; }
-    o.tag(fn.c_str());
-    uint64_t p = v & wmask(bits);
-    if (sgn && (p >> (bits - 1)) & 1) o.tag(p == (1ull << (bits - 1)) ? "minimum" : "negative");
-}
-
-static void run_atol(const std::vector<std::string> &w, out &o)
-{
-    bytes s = unhex(w[1]);
-    if (s.empty() || s.back() != 0) { o.result = "bad-op"; return; }
-    exact_buf b(s);
-    long l = igv_atol((const char *)b.p);
-    int i = igv_atoi((const char *)b.p);
-    o.result = hexn((uint64_t)l, 16) + " " + hexn((uint32_t)i, 8);
-    errno = 0;
-    long g = strtol((const char *)s.data(), 0, 10);
-    if (errno == 0)
-    {
-        if (g != l) o.fail("atol(`" + show(std::string((char *)s.data())) + "`) = " + std::to_string(l) + ", strtol gives " + std::to_string(g));
-        if ((int)g != i) o.fail("atoi(`" + show(std::string((char *)s.data())) + "`) = " + std::to_string(i));
-    }
-    o.tag("atol");
-    if (g < 0) o.tag("negative");
-    if (g == LONG_MIN) o.tag("minimum");
-    if (isspace(s[0])) o.tag("leading-space");
-}
-
-static void run_dpr(const std::vector<std::string> &w, out &o)
-{
-    const DFn *f = 0;
-    for (int i = 0; i < NDFN; i++)
-        if (w[1] == DFNS[i].name) f = &DFNS[i];
-    if (!f) { o.result = "bad-op"; return; }
-    uint64_t v = h64(w[2]);
-    cap_clear();
-    f->call(v);
-    std::string g_out = cap_str();
-    o.result = hex(g_out);
-    std::string ref = ref_dprint(*f, v);
-    if (g_out != ref)
-        o.fail(std::string("debug_print ") + f->name + "(" + hexn(v, 16) + ") emitted `" + show(g_out) + "`, canonical text is `" + ref + "`");
-    o.tag(f->fmt == 'd' ? "dprint-dec" : f->fmt == 'x' ? "dprint-hex" : "dprint-bin");
-    uint64_t p = v & wmask(f->bits);
-    if (f->sgn && (p >> (f->bits - 1)) & 1) o.tag(p == (1ull << (f->bits - 1)) ? "minimum" : "negative");
-}
-
-static void run_vt(const std::vector<std::string> &w, out &o)
-{
-    int arg = (int)(uint32_t)h64(w[1]);
-    char ref[40];
-    int len = snprintf(ref, sizeof ref, "\x1b[%dD", arg);
-    exact_buf b((size_t)len + 1);
-    int r = vt100_left((char *)b.p, arg);
-    o.result = hex(b.p, b.n) + " " + std::to_string(r);
-    if (memcmp(b.p, ref, len + 1) || r != len) o.fail("vt100_left(" + std::to_string(arg) + ")");
-    o.tag("vt100");
-}
-
-
-// ------------------------------------------------------------------ round 3 ops
-static std::string show_stream(const std::string &t)
-{
-    fnv h;
-    for (unsigned char c : t) h.byte(c);
-    return std::to_string(t.size()) + " " + hexn(h.h, 16) + " " + (t.empty() ? std::string("-") : hex(t.substr(0, 48)));
-}
-static bytes repeat_bytes(const bytes &b, size_t rep)
-{
-    bytes m;
-    for (size_t i = 0; i < rep; i++) m.insert(m.end(), b.begin(), b.end());
-    return m;
-}
-static std::string first_diff(const std::string &a, const std::string &b)
-{
-    size_t i = 0;
-    while (i < a.size() && i < b.size() && a[i] == b[i]) i++;
-    size_t lo = i < 12 ? 0 : i - 12;
-    return "at character " + std::to_string(i) + ": emitted `" + show(a.substr(lo, 40)) + "`, expected `" + show(b.substr(lo, 40)) + "`";
-}
-
-static void run_wh(const std::vector<std::string> &w, out &o)
-{
-    const std::string &fn = w[1];
-    size_t p = strtoull(w[2].c_str(), 0, 10), size = strtoull(w[3].c_str(), 0, 10), rep = strtoull(w[4].c_str(), 0, 10);
-    bytes mem = repeat_bytes(unhex(w[5]), rep);
-    if (p + size != mem.size() || size > 65535) { o.result = "bad-op"; return; } // the block ends where the routine must stop
-    exact_buf b(mem);
-    cap_clear();
-    if (fn == "hex") debug_writehex(b.p + p, (uint16_t)size);
-    else if (fn == "hexr") debug_writehex_reversed(b.p + p, (uint16_t)size);
-    else if (fn == "bin") debug_writebin(b.p + p, (uint16_t)size);
-    else if (fn == "binr") debug_writebin_reversed(b.p + p, (uint16_t)size);
-    else if (fn == "hexn") debug_printhex_n(b.p + p, (int)size);
-    else { o.result = "bad-op"; return; }
-    std::string got = cap_str();
-    o.result = show_stream(got);
-    // reference: one byte at a time, in the documented order
-    std::string ref;
-    bool rev = fn == "hexr" || fn == "binr" || fn == "hexn";
-    for (size_t i = 0; i < size; i++)
-    {
-        uint8_t x = mem[p + (rev ? size - 1 - i : i)];
-        if (fn[0] == 'h') { ref.push_back(AL_UP[x >> 4]); ref.push_back(AL_UP[x & 15]); }
-        else for (int bit = 7; bit >= 0; bit--) ref.push_back((x >> bit) & 1 ? '1' : '0');
-    }
-    if (got != ref) o.fail("debug_write " + fn + " of " + std::to_string(size) + " bytes " + first_diff(got, ref));
-    o.tag(("write-" + fn).c_str());
-    if (size == 0) o.tag("size-0");
-    if (size >= 255 && size <= 257) o.tag("size-around-256");
-    if (size == 65535) o.tag("size-65535");
-    if (got.size() >= 300 * 1024) o.tag("output-300KiB");
-}
-
-static void run_dump(const std::vector<std::string> &w, out &o)
-{
-    size_t len = strtoull(w[1].c_str(), 0, 10), rep = strtoull(w[2].c_str(), 0, 10);
-    bytes mem = repeat_bytes(unhex(w[3]), rep);
-    if (len != mem.size() || len > 65535) { o.result = "bad-op"; return; }
-    exact_buf b(mem);
-    cap_clear();
-    debug_print_dump(b.p, (uint16_t)len);
-    std::string got = cap_str();
-    // reference
-    std::string ref, canon;
-    size_t rows = (len + 7) / 8;
-    for (size_t r = 0; r < rows; r++)
-    {
-        char t[40];
-        snprintf(t, sizeof t, "0x%016llX:", (unsigned long long)(uintptr_t)(b.p + 8 * r));
-        ref += t;
-        for (size_t j = 8 * r; j < 8 * r + 8; j++)
-            if (j < len) { snprintf(t, sizeof t, "%02X ", mem[j]); ref += t; }
-            else ref += "   ";
-        for (size_t j = 8 * r; j < 8 * r + 8; j++)
-            if (j >= len) ref.push_back(' ');
-            else ref.push_back(mem[j] >= 32 && mem[j] <= 126 ? (char)mem[j] : '.'); // printable: as is, everything else '.'
-        ref += "\r\n";
-    }
-    if (got != ref) o.fail("debug_print_dump of " + std::to_string(len) + " bytes " + first_diff(got, ref));
-    // the address column relative to mem (what the model prints with mem = 0)
-    canon = got;
-    const size_t ROW = 2 + 16 + 1 + 24 + 8 + 2;
-    if (canon.size() == rows * ROW)
-        for (size_t r = 0; r < rows; r++)
-        {
-            std::string a = canon.substr(r * ROW + 2, 16);
-            bool hx = true;
-            for (char c : a) if (!((c >= '0' && c <= '9') || (c >= 'A' && c <= 'F'))) hx = false;
-            if (!hx) continue;
-            uint64_t v = strtoull(a.c_str(), 0, 16) - (uint64_t)(uintptr_t)b.p;
-            char t[24];
-            snprintf(t, sizeof t, "%016llX", (unsigned long long)v);
-            canon.replace(r * ROW + 2, 16, t);
-        }
-    o.result = show_stream(canon);
-    o.tag("dump");
-    if (len == 0) o.tag("size-0");
-    if (len % 8) o.tag("partial-row");
-    if (len == 65535) o.tag("size-65535");
-    if (got.size() >= 300 * 1024) o.tag("output-300KiB");
-    bool np = false, hi = false;
-    for (uint8_t x : mem) { if (x < 32 || x == 127) np = true; if (x >= 128) hi = true; }
-    if (np) o.tag("control-char");
-    if (hi) o.tag("high-bit-char");
-}
-
-static void run_hxa(const std::vector<std::string> &w, out &o)
-{
-    int W = atoi(w[1].c_str());
-    uint64_t v = h64(w[2]) & wmask(W);
-    int n = W / 4;
-    if (W != 8 && W != 16 && W != 32 && W != 64) { o.result = "bad-op"; return; }
-    exact_buf b((size_t)n);
-    switch (W)
-    {
-    case 8: uint8_to_hex((char *)b.p, (uint8_t)v); break;
-    case 16: uint16_to_hex((char *)b.p, (uint16_t)v); break;
-    case 32: uint32_to_hex((char *)b.p, (uint32_t)v); break;
-    default: uint64_to_hex((char *)b.p, (uint64_t)v); break;
-    }
-    std::string txt((char *)b.p, n);
-    auto back = [&](const std::string &t) -> uint64_t {
-        exact_buf c(bytes(t.begin(), t.end()));
-        switch (W)
-        {
-        case 8: return hex_to_uint8((char *)c.p);
-        case 16: return hex_to_uint16((char *)c.p);
-        case 32: return hex_to_uint32((char *)c.p);
-        default: return hex_to_uint64((char *)c.p);
-        }
-    };
-    uint64_t b1 = back(txt), b2 = back(flipcase(txt));
-    o.result = hex(txt) + " " + hexn(b1, n) + " " + hexn(b2, n);
-    char ref[24];
-    snprintf(ref, sizeof ref, "%0*llX", n, (unsigned long long)v);
-    if (txt != ref) o.fail("uint" + std::to_string(W) + "_to_hex(" + hexn(v, n) + ") wrote `" + show(txt) + "`, fixed-width upper-case text is `" + ref + "`");
-    if (b1 != v) o.fail("hex_to_uint" + std::to_string(W) + "(`" + show(txt) + "`) = " + hexn(b1, n));
-    if (b2 != v) o.fail("hex_to_uint" + std::to_string(W) + "(`" + show(flipcase(txt)) + "`) = " + hexn(b2, n) + " (lower-case text of " + hexn(v, n) + ")");
-    o.tag(("hexascii-" + std::to_string(W)).c_str());
-}
-
-template <class T> static std::string tsig() { return std::to_string(sizeof(T)) + (std::is_signed<T>::value ? "s" : "u"); }
-template <class R, class A, class B, class C> static std::string toasig(R (*)(A, B, C)) { return tsig<A>() + "/" + tsig<C>(); }
-template <class R, class A, class B, class C> static std::string atosig(R (*)(A, B, C)) { return tsig<R>() + "/" + tsig<B>(); }
-template <class R, class A> static std::string argsig(R (*)(A)) { return tsig<A>(); }
-template <class R, class A> static std::string retsig(R (*)(A)) { return tsig<R>(); }
-template <class R, class A, class B> static std::string arg2sig(R (*)(A, B)) { return tsig<B>(); }
-static std::string join(const std::vector<std::string> &v)
-{
-    std::string r;
-    for (size_t i = 0; i < v.size(); i++) r += (i ? "," : "") + v[i];
-    return r;
-}
-
-static void run_consts(out &o)
-{
-    uint16_t probe = 0x0102;
-    std::string r = "int=" + std::to_string(sizeof(int)) + " long=" + std::to_string(sizeof(long)) + " short=" + std::to_string(sizeof(short)) +
-                    " ptr=" + std::to_string(sizeof(uintptr_t)) + " char=" + (CHAR_MIN < 0 ? "s" : "u") + " " + (*(uint8_t *)&probe == 2 ? "le" : "be") + " ";
-    r += "toa:" + join({toasig(igris_i8toa), toasig(igris_i16toa), toasig(igris_i32toa), toasig(igris_i64toa), toasig(igris_u8toa), toasig(igris_u16toa),
-                        toasig(igris_u32toa), toasig(igris_u64toa)}) + " ";
-    r += "ato:" + join({atosig(igris_atoi8), atosig(igris_atoi16), atosig(igris_atoi32), atosig(igris_atoi64), atosig(igris_atou8), atosig(igris_atou16),
-                        atosig(igris_atou32), atosig(igris_atou64)}) + " ";
-    r += "lc:" + join({toasig(igv_itoa), toasig(igv_utoa), toasig(igv_ltoa), toasig(igv_ultoa)}) + " atol:" + retsig(igv_atol) + " atoi:" + retsig(igv_atoi) + " ";
-    r += "dpr:" + join({argsig(debug_printdec_uint8), argsig(debug_printdec_uint16), argsig(debug_printdec_uint32), argsig(debug_printdec_uint64),
-                        argsig(debug_printdec_unsigned_char), argsig(debug_printdec_unsigned_short), argsig(debug_printdec_unsigned_int),
-                        argsig(debug_printdec_unsigned_long), argsig(debug_printdec_unsigned_long_long), argsig(debug_printdec_signed_char),
-                        argsig(debug_printdec_signed_short), argsig(debug_printdec_signed_int), argsig(debug_printdec_signed_long),
-                        argsig(debug_printdec_signed_long_long), argsig(debug_printhex_uint4), argsig(debug_printhex_uint8), argsig(debug_printhex_uint16),
-                        argsig(debug_printhex_uint32), argsig(debug_printhex_uint64), argsig(debug_printhex_char), argsig(debug_printhex_unsigned_char),
-                        argsig(debug_printhex_unsigned_short), argsig(debug_printhex_unsigned_int), argsig(debug_printhex_unsigned_long),
-                        argsig(debug_printhex_unsigned_long_long), argsig(debug_printhex_signed_char), argsig(debug_printhex_signed_short),
-                        argsig(debug_printhex_signed_int), argsig(debug_printhex_signed_long), argsig(debug_printhex_signed_long_long),
-                        argsig(debug_printbin_uint4), argsig(debug_printbin_uint8), argsig(debug_printbin_uint16), argsig(debug_printbin_uint32),
-                        argsig(debug_printbin_uint64)}) + " ";
-    r += "wh:" + join({arg2sig(debug_writehex), arg2sig(debug_writehex_reversed), arg2sig(debug_writebin), arg2sig(debug_writebin_reversed),
-                       arg2sig(debug_printhex_n)}) + " dump:" + arg2sig(debug_print_dump) + " vt:" + arg2sig(vt100_left);
-    o.result = r;
-    o.tag("consts");
-}
-
-static void run_tbl(const std::vector<std::string> &w, out &o)
-{
-    const std::string &t = w[1];
-    o.tag(("table-" + t).c_str());
-    if (t == "h2x")
-    {
-        bytes r;
-        for (unsigned n = 0; n < 256; n++) r.push_back((uint8_t)half2hex((uint8_t)n));
-        o.result = hex(r);
-        for (unsigned n = 0; n < 16; n++)
-            if (r[n] != (uint8_t)AL_UP[n]) o.fail("half2hex(" + std::to_string(n) + ") = `" + show(std::string(1, (char)r[n])) + "`");
-    }
-    else if (t == "dv")
-    {
-        bytes r;
-        for (unsigned c = 0; c < 256; c++)
-        {
-            bytes s = {(uint8_t)c, 0};
-            exact_buf b(s);
-            char *e = 0;
-            uint8_t v = igris_atou8((const char *)b.p, 255, &e);
-            long end = e - (char *)b.p;
-            r.push_back((uint8_t)(v + 128 * end));
-            int want = ref_dv((uint8_t)c);
-            if (want < 36 ? (v != want || end != 1) : (v != 0 || end != 0))
-                o.fail("digit value of character " + hexn(c, 2) + ": igris_atou8 in base 255 gives " + std::to_string(v) + " end " + std::to_string(end));
-        }
-        o.result = hex(r);
-    }
-    else if (t == "cty")
-    {
-        std::string r;
-        for (int c = -128; c < 256; c++)
-        {
-            unsigned m = (igris_isdigit(c) ? 1 : 0) | (igris_isxdigit(c) ? 2 : 0) | (igris_isblank(c) ? 4 : 0) | (igris_isspace(c) ? 8 : 0) |
-                         (igris_isupper(c) ? 16 : 0) | (igris_islower(c) ? 32 : 0) | (igris_isalpha(c) ? 64 : 0) | (igris_isalnum(c) ? 128 : 0) |
-                         (igris_isprint(c) ? 256 : 0);
-            int up = igris_toupper(c), lo = igris_tolower(c);
-            r += hexn(m, 4) + hexn((uint8_t)(up - c + 128), 2) + hexn((uint8_t)(lo - c + 128), 2);
-            // host <ctype.h> ("C" locale) inside ASCII; nothing outside it
-            bool a = c >= 0 && c < 128;
-            unsigned want = !a ? 0 : ((isdigit(c) ? 1 : 0) | (isxdigit(c) ? 2 : 0) | (isblank(c) ? 4 : 0) | (isspace(c) ? 8 : 0) | (isupper(c) ? 16 : 0) |
-                                      (islower(c) ? 32 : 0) | (isalpha(c) ? 64 : 0) | (isalnum(c) ? 128 : 0) | (isprint(c) ? 256 : 0));
-            int wup = a ? toupper(c) : c, wlo = a ? tolower(c) : c;
-            if (m != want || up != wup || lo != wlo) o.fail("igris ctype of " + std::to_string(c) + ": mask " + hexn(m, 4) + " (host " + hexn(want, 4) + ")");
-        }
-        o.result = r;
-    }
-    else if (t == "alpha")
-    {
-        std::string r, ref;
-        char buf[16];
-        for (int fn = 0; fn < 6; fn++)
-            for (int d = 0; d < 36; d++)
-            {
-                memset(buf, 0, sizeof buf);
-                switch (fn)
-                {
-                case 0: igris_i64toa(d, buf, 36); break;
-                case 1: igris_u64toa(d, buf, 36); break;
-                case 2: igv_itoa(d, buf, 36); break;
-                case 3: igv_utoa(d, buf, 36); break;
-                case 4: igv_ltoa(d, buf, 36); break;
-                default: igv_ultoa(d, buf, 36); break;
-                }
-                r += buf;
-                ref.push_back(fn == 1 ? AL_UP[d] : AL_LO[d]);
-            }
-        cap_clear();
-        for (int d = 0; d < 16; d++) debug_printhex_uint4((uint8_t)d);
-        r += cap_str();
-        for (int d = 0; d < 16; d++) r.push_back(half2hex((uint8_t)d));
-        ref += std::string(AL_UP, 16) + std::string(AL_UP, 16);
-        o.result = hex(r);
-        if (r != ref) o.fail("digit alphabets: `" + show(r) + "`");
-    }
-    else o.result = "bad-op";
-}
-
-static void run_pre(out &o)
-{
-    const PreMain &g = g_pre;
-    o.result = hex(std::string(g.a)) + " " + hex(std::string(g.b)) + " " + hexn(g.cv, 8) + "/" + std::to_string(g.ce) + " " + hex(std::string(g.d, g.dn)) + " " +
-               hex(std::string(g.e, g.en)) + " " + hex(std::string(g.f));
-    if (std::string(g.a) != "-2147483648" || std::string(g.b) != std::string(64, '1') || g.cv != 0xffffffffu || g.ce != 10 ||
-        std::string(g.d, g.dn) != "-9223372036854775808" || std::string(g.e, g.en) != "DEADBEEF" || std::string(g.f) != "-ff")
-        o.fail("a conversion called before main() gave a different text");
-    o.tag("before-main");
-}
-
-static int ref_len(u128 mag, unsigned base)
-{
-    int k = 1;
-    u128 p = base;
-    while (p <= mag) { p *= base; k++; }
-    return k;
-}
-static void run_maxlen(const std::vector<std::string> &w, out &o)
-{
-    int k = kind_of(w[1]);
-    unsigned base = (unsigned)strtoul(w[2].c_str(), 0, 10);
-    if (base < 2 || base > 36) { o.result = "bad-op"; return; }
-    int bits = KBITS[k];
-    bool sgn = ksigned(k);
-    uint64_t vmax = sgn ? wmask(bits) >> 1 : wmask(bits);
-    int lmax = ref_len(vmax, base), lmin = sgn ? 1 + ref_len((u128)vmax + 1, base) : 0;
-    long got[2] = {-1, -1};
-    for (int i = 0; i < (sgn ? 2 : 1); i++)
-    {
-        int len = i ? lmin : lmax;
-        exact_buf b((size_t)len + 1); // the longest text of the kind fits exactly
-        char *r = call_toa(k, extend(i ? vmax + 1 : vmax, bits, sgn), (char *)b.p, (uint8_t)base);
-        got[i] = r - (char *)b.p;
-        if (got[i] != len || b.p[len] != 0 || strlen((char *)b.p) != (size_t)len)
-            o.fail(std::string("longest text of ") + KNAME[k] + " in base " + std::to_string(base) + ": expected " + std::to_string(len) + " characters");
-    }
-    o.result = std::to_string(got[0]) + " " + (sgn ? std::to_string(got[1]) : std::string("-"));
-    o.tag("longest-text-of-kind");
-}
-
-static void run_atorep(const std::vector<std::string> &w, out &o)
-{
-    int k = kind_of(w[1]);
-    unsigned base = (unsigned)strtoul(w[2].c_str(), 0, 10);
-    size_t len = strtoull(w[3].c_str(), 0, 10);
-    bytes pat = unhex(w[4]), tail = unhex(w[5]);
-    if (tail.empty() || tail.back() != 0) { o.result = "bad-op"; return; }
-    bytes s;
-    if (!pat.empty())
-        for (size_t i = 0; i < len; i++) s.push_back(pat[i % pat.size()]);
-    s.insert(s.end(), tail.begin(), tail.end());
-    int bits = KBITS[k];
-    exact_buf b(s);
-    char *e = 0;
-    uint64_t v = call_ato(k, (const char *)b.p, (uint8_t)base, &e);
-    long end = e - (char *)b.p;
-    o.result = hexn(v, bits / 4) + " " + std::to_string(end);
-    size_t rend;
-    bool wrapped;
-    uint64_t rv = ref_parse(s.data(), bits, ksigned(k), base, &rend, &wrapped);
-    if (v != rv || end != (long)rend)
-        o.fail(std::string("igris_ato") + KNAME[k] + " on " + std::to_string(s.size()) + " bytes, base " + std::to_string(base) + ": " + hexn(v, bits / 4) + " end " +
-               std::to_string(end) + ", expected " + hexn(rv, bits / 4) + " end " + std::to_string(rend));
-    o.tag("long-text");
-    if (rend >= 300 * 1024) o.tag("input-300KiB");
-    if (rend >= 65535 && rend <= 65537) o.tag("length-around-65536");
-    if (wrapped) o.tag("wraps");
-}
-
-static void run_seq(const std::vector<std::string> &w, out &o)
-{
-    int k = kind_of(w[1]);
-    uint64_t v = extend(h64(w[2]), KBITS[k], ksigned(k));
-    exact_buf b((size_t)72);
-    bytes prev = b.vec();
-    size_t pos = 0;
-    const std::string &bs = w[3];
-    while (pos <= bs.size())
-    {
-        size_t c = bs.find(',', pos);
-        if (c == std::string::npos) c = bs.size();
-        unsigned base = (unsigned)strtoul(bs.substr(pos, c - pos).c_str(), 0, 10);
-        pos = c + 1;
-        bool valid = base >= 2 && base <= 36;
-        char ref[80];
-        int len = valid ? ref_text(v, KBITS[k], ksigned(k), base, !ksigned(k), ref) : 0;
-        ref[len] = 0;
-        char *r = call_toa(k, v, (char *)b.p, (uint8_t)base);
-        if (memcmp(b.p, ref, len + 1) || r != (char *)b.p + len)
-            o.fail(std::string("igris_") + KNAME[k] + "toa into a buffer that held an earlier text: base " + std::to_string(base) + " wrote `" + show(std::string((char *)b.p, len + 1)) + "`");
-        for (size_t i = len + 1; i < 72; i++)
-            if (b.p[i] != prev[i]) { o.fail("bytes behind the terminator changed (offset " + std::to_string(i) + ", base " + std::to_string(base) + ")"); break; }
-        prev = b.vec();
-    }
-    size_t t = 0;
-    for (size_t i = 0; i < 72; i++) if (b.p[i] != 0xA5) t = i + 1;
-    o.result = t ? hex(b.p, t) : std::string("-");
-    o.tag("same-buffer-several-bases");
-}
-
-
-static void run_asml(const std::vector<std::string> &w, out &o)
-{
-    int W = atoi(w[1].c_str());
-    size_t n = w.size() - 2;
-    uint64_t v[4] = {0, 0, 0, 0};
-    for (size_t i = 0; i < n; i++) v[i] = h64(w[2 + i]) & wmask(W);
-    if (W != 8 && W != 16 && W != 32) { o.result = "bad-op"; return; }
-    cap_clear();
-    c07_asmlink_args(W, (int)n, v);
-    std::string got = cap_str(), ref;
-    o.result = hex(got);
-    for (size_t i = 0; i < n; i++)
-    {
-        char t[24];
-        snprintf(t, sizeof t, "%0*llX:", W / 4, (unsigned long long)v[i]);
-        ref += t;
-    }
-    if (got != ref) o.fail("debug_asmlink_args" + std::to_string(W) + "x" + std::to_string(n) + " emitted `" + show(got) + "`, expected `" + ref + "`");
-    o.tag("asmlink-args");
-}
-static void run_asmr(const std::vector<std::string> &w, out &o)
-{
-    uint64_t v = h64(w[1]);
-    cap_clear();
-    c07_asmlink_test();
-    std::string t = cap_str();
-    cap_clear();
-    dprptr((const void *)(uintptr_t)v);
-    std::string a = cap_str();
-    cap_clear();
-    dprptrln((const void *)(uintptr_t)v);
-    std::string b = cap_str();
-    cap_clear();
-    debug_print((const char *)0);
-    std::string nul = cap_str();
-    o.result = hexn(c07_asmlink_ret(8), 2) + " " + hexn(c07_asmlink_ret(16), 4) + " " + hexn(c07_asmlink_ret(32), 8) + " " + hexn(c07_asmlink_ret(64), 16) + " " +
-               hex(t) + " " + hex(a) + " " + hex(b) + " " + hex(nul);
-    char ref[24];
-    snprintf(ref, sizeof ref, "%016llX", (unsigned long long)v);
-    if (a != ref || b != std::string(ref) + "\r\n") o.fail("dprptr(" + hexn(v, 16) + ") emitted `" + show(a) + "` / `" + show(b) + "`");
-    if (t != "ABCDE12345" || nul != "NULL") o.fail("debug_asmlink_test / debug_print(NULL)");
-    if (c07_asmlink_ret(8) != 0xFE || c07_asmlink_ret(16) != 0xFEDC || c07_asmlink_ret(32) != 0xFEDCBA98u || c07_asmlink_ret(64) != 0xFEDCBA9876543210ull)
-        o.fail("debug_asmlink_ret constants");
-    o.tag("asmlink-ret-dprptr");
-}
-
 static void run_op(const std::vector<std::string> &w, const std::string &, out &o)
 {
     // hv::main_ arms a 3 s watchdog per op.  On this (virtualised, shared) machine a process
@@ -1071,11 +379,16 @@ static void run_op(const std::vector<std::string> &w, const std::string &, out &
     if (w[0] == "twin" && w.size() >= 2 && !g_twin)
     {
         std::vector<std::string> w2(w.begin() + 1, w.end());
-        if (w2[0] != "toa" && w2[0] != "ato" && w2[0] != "h2h") { o.result = "bad-op"; return; }
+        // every operation that reaches the code through call_toa / call_ato / hex2half
+        static const char *const TW[] = {"toa", "ato", "h2h", "rng", "sweep", "maxlen", "atorep", "seq"};
+        bool okop = false;
+        for (const char *t : TW) if (w2[0] == t) okop = true;
+        if (!okop) { o.result = "bad-op"; return; }
         g_twin = true;
         run_op(w2, "", o);
         g_twin = false;
-        o.tag("std_portable-twin");
+        // when the amalgamated header no longer carries its own copy the calls resolve to the anchored routines
+        o.tag(c07_twin_present() ? "std_portable-twin" : "std_portable-twin-absent");
         return;
     }
     const std::string &op = w[0];
@@ -1114,403 +427,12 @@ static void run_op(const std::vector<std::string> &w, const std::string &, out &
     else o.result = "bad-op";
 }
 
-// ------------------------------------------------------------------ gen
-static std::vector<uint64_t> boundary_values(rng &r, int bits, bool sgn, unsigned base, int nrand)
-{
-    std::vector<uint64_t> v;
-    uint64_t m = wmask(bits);
-    auto add = [&](uint64_t x) { v.push_back(extend(x, bits, sgn)); };
-    uint64_t top = sgn ? (m >> 1) : m; // largest magnitude on the positive side
-    for (uint64_t x : {0ull, 1ull, 2ull, 9ull, 10ull, 11ull, 35ull, 36ull, 37ull}) { add(x); if (sgn) add(0 - x); }
-    add(top); add(top - 1);
-    if (sgn) { add(top + 1); add(top + 2); } // minimum, minimum + 1
-    if (base >= 2)
-    {
-        add(base - 1); add(base); add(base + 1);
-        if (sgn) { add(0 - (uint64_t)(base - 1)); add(0 - (uint64_t)base); }
-        // powers of the base: every length boundary of the text
-        std::vector<uint64_t> pw;
-        u128 p = base;
-        while (p <= (u128)top) { pw.push_back((uint64_t)p); p *= base; }
-        size_t take = pw.size() <= 6 ? pw.size() : 6;
-        for (size_t i = 0; i < take; i++)
-        {
-            uint64_t q = (i < 2 && pw.size() > 6) ? pw[pw.size() - 1 - i] : pw[r.below(pw.size())];
-            add(q); add(q - 1); add(q + 1);
-            if (sgn) { add(0 - q); add(0 - (q - 1)); }
-        }
-    }
-    for (int i = 0; i < nrand; i++)
-    {
-        // uniform in the bit length, so that short and long texts are equally likely
-        int len = (int)r.range(0, bits);
-        uint64_t x = len == 0 ? 0 : (r.next() & wmask(len)) | (1ull << (len - 1));
-        if (len == 64) x = r.next();
-        add(x);
-    }
-    return v;
-}
-
-static std::string digit_string(rng &r, unsigned base, int len)
-{
-    std::string s;
-    unsigned lim = base < 1 ? 1 : (base > 36 ? 36 : base);
-    for (int i = 0; i < len; i++)
-    {
-        unsigned d = (unsigned)r.below(lim);
-        if (r.chance(15)) d = lim - 1; // the largest digit of the base
-        s.push_back(r.chance(50) ? AL_LO[d] : AL_UP[d]);
-    }
-    return s;
-}
-static void emit_ato(int k, unsigned base, const std::string &s)
-{
-    // s must end with a NUL byte
-    printf("ato %s %u %s\n", KNAME[k], base, hex(s).c_str());
-}
-
-static uint64_t g_seed = 1;
-static const unsigned NPART = 16; // = thorough_seeds in checks/C07.json
-
-static void gen(rng &r, const std::string &tier)
-{
-    bool th = tier == "thorough";
-    const unsigned odd_bases[] = {0, 1, 37, 64, 255};
-    // (0) hex2half on every character
-    for (unsigned c = 0; c < 256; c++) printf("h2h %02x\n", c);
-
-    // (1) exhaustive 8-bit and 16-bit values x all bases (as ranges, model and code hashed)
-    for (unsigned base = 2; base <= 36; base++)
-        for (int k : {I8, U8})
-            printf("rng %s %u %016llx 256 1\n", KNAME[k], base, k == I8 ? 0xffffffffffffff80ull : 0ull);
-    // every 16-bit value x every base on the code (oracle: odometer reference + parse back) ...
-    for (unsigned base = 2; base <= 36; base++)
-        for (int k : {I16, U16})
-            printf("sweep %s %u %016llx 65536\n", KNAME[k], base, k == I16 ? 0xffffffffffff8000ull : 0ull);
-    // ... and model against code on every 16-bit value for a subset of the bases: 2, 10, 16, 36
-    // and four seed-chosen ones in the quick tier; in the thorough tier the 35 bases are
-    // dealt out over the NPART parallel seeds, so one thorough run covers all of them
-    {
-        std::vector<unsigned> sel = {2, 10, 16, 36};
-        if (th) { for (unsigned b = 2; b <= 36; b++) if (b % NPART == g_seed % NPART) sel.push_back(b); }
-        else for (int i = 0; i < 4; i++) sel.push_back((unsigned)r.range(3, 35));
-        for (unsigned base : sel)
-            for (int k : {I16, U16})
-                for (unsigned c = 0; c < 8; c++)
-                    printf("rng %s %u %016llx 8192 1\n", KNAME[k], base, (unsigned long long)extend(c * 8192ull + (k == I16 ? 0x8000 : 0), 16, k == I16));
-    }
-
-    // (2) boundary-biased single values, every kind x every base (+ bases outside 2..36)
-    for (int k = 0; k < NKIND; k++)
-    {
-        for (unsigned base = 2; base <= 36; base++)
-            for (uint64_t v : boundary_values(r, KBITS[k], ksigned(k), base, th ? 24 : 6))
-                printf("toa %s %u %016llx\n", KNAME[k], base, (unsigned long long)v);
-        for (unsigned base : odd_bases)
-            for (uint64_t v : {(uint64_t)0, (uint64_t)1, wmask(KBITS[k]), (uint64_t)12345})
-                printf("toa %s %u %016llx\n", KNAME[k], base, (unsigned long long)extend(v, KBITS[k], ksigned(k)));
-    }
-    // sampled 32- and 64-bit ranges with large odd strides (model hashed against code)
-    for (unsigned base = 2; base <= 36; base++)
-        for (int ki = 0; ki < 4; ki++)
-        {
-            static const int K4[4] = {I32, U32, I64, U64};
-            const int k = K4[ki];
-            printf("rng %s %u %016llx %d %llu\n", KNAME[k], base, (unsigned long long)r.next(), th ? 4096 : 256,
-                   (unsigned long long)((r.next() >> (KBITS[k] == 32 ? 44 : 6)) | 1));
-        }
-
-    // (3) parse side: digit strings of each base followed by every terminator byte
-    std::vector<unsigned> bases;
-    for (unsigned b = 2; b <= 36; b++) bases.push_back(b);
-    for (unsigned b : odd_bases) bases.push_back(b);
-    for (unsigned base : bases)
-        for (unsigned t = 0; t < 256; t++)
-            for (int k = 0; k < NKIND; k++)
-            {
-                if (!th && (int)((base + t) % NKIND) != k) continue;
-                int mode = (int)r.below(10);
-                int len = mode == 0 ? 0 : mode <= 6 ? (int)r.range(1, 8) : mode <= 8 ? (int)r.range(9, 22) : (int)r.range(23, 70);
-                std::string s;
-                if (r.chance(ksigned(k) ? 35 : 8)) s += '-';
-                s += digit_string(r, base, len);
-                s.push_back((char)t);
-                int extra = (int)r.below(4);
-                for (int i = 0; i < extra; i++) s.push_back(r.chance(50) ? AL_LO[r.below(36)] : (char)r.next());
-                s.push_back(0);
-                // the string must stay NUL terminated: an embedded NUL is fine, the tail is then unread
-                emit_ato(k, base, s);
-            }
-    // texts around the overflow boundary of every width, odd prefixes
-    for (unsigned base : {2u, 3u, 7u, 8u, 10u, 16u, 17u, 35u, 36u})
-        for (int k = 0; k < NKIND; k++)
-        {
-            char t[80];
-            int bits = KBITS[k];
-            for (uint64_t v : {wmask(bits), wmask(bits) >> 1, (wmask(bits) >> 1) + 1, (uint64_t)0})
-            {
-                ref_text(v, 64, false, base, r.chance(50), t);
-                std::string s = t;
-                emit_ato(k, base, s + std::string(1, '\0'));
-                emit_ato(k, base, "-" + s + std::string(1, '\0'));
-                emit_ato(k, base, s + "0" + std::string(1, '\0'));          // one digit too many
-                emit_ato(k, base, "000" + s + " " + std::string(1, '\0'));  // leading zeros are digits
-            }
-            for (const char *odd : {"", "-", "--1", "+1", " 1", "-+1", "0x1f", "1-", "1.", "1.0", "-0", "z", "Z", "zZ9", "\x80", "\xff" "1", "@", "[", "`", "{", "/", ":"})
-                emit_ato(k, base, std::string(odd) + std::string(1, '\0'));
-        }
-
-    // (4) libc shims
-    for (const char *fn : {"itoa", "utoa", "ltoa", "ultoa"})
-    {
-        int bits = fn[0] == 'l' || fn[1] == 'l' ? 64 : 32;
-        bool sgn = fn[0] == 'i' || fn[0] == 'l';
-        for (unsigned base = 2; base <= 36; base++)
-            for (uint64_t v : boundary_values(r, bits, sgn, base, th ? 16 : 4))
-                printf("lc %s %u %016llx\n", fn, base, (unsigned long long)v);
-        for (unsigned base : {0u, 1u, 37u, 266u, 65535u, 256u + 16u})
-            for (uint64_t v : {(uint64_t)0, (uint64_t)255, wmask(bits)})
-                printf("lc %s %u %016llx\n", fn, base, (unsigned long long)extend(v, bits, sgn));
-    }
-    // atol/atoi on the decimal text of longs (the value always fits; LONG_MIN is the probe below)
-    {
-        std::vector<uint64_t> vals = boundary_values(r, 64, true, 10, th ? 600 : 150);
-        for (uint64_t v : boundary_values(r, 32, true, 10, th ? 200 : 50)) vals.push_back(v);
-        for (uint64_t v : vals)
-        {
-            if (v == 0x8000000000000000ull) continue;
-            char t[80];
-            ref_text(v, 64, true, 10, false, t);
-            std::string s;
-            int sp = r.chance(30) ? (int)r.below(4) : 0;
-            for (int i = 0; i < sp; i++) s.push_back(" \t\n\v\f\r"[r.below(6)]);
-            if (t[0] != '-' && r.chance(20)) s.push_back('+');
-            s += t;
-            if (r.chance(40)) s += r.chance(50) ? std::string(1, (char)r.range(1, 255)) : std::string(".5e3");
-            s.push_back(0);
-            bool ok = true;
-            {
-                errno = 0;
-                strtol(s.c_str(), 0, 10);
-                if (errno) ok = false; // an appended digit overflowed: outside the stream by construction
-            }
-            if (ok) printf("atol %s\n", hex(s).c_str());
-        }
-        for (const char *odd : {"", " ", "-", "+", "+-1", "- 1", "abc", "\x80" "1", "00012", "-0"})
-            printf("atol %s\n", hex(std::string(odd) + std::string(1, '\0')).c_str());
-        // recorded finding (repaired in fix-C11): LONG_MIN overflows the accumulator
-        printf("@F:C07-atol-longmin atol %s\n", hex(std::string("-9223372036854775808") + std::string(1, '\0')).c_str());
-        printf("@F:C07-atol-longmin atol %s\n", hex(std::string("  -9223372036854775808x") + std::string(1, '\0')).c_str());
-    }
-
-    // (5) debug printers
-    for (int i = 0; i < NDFN; i++)
-    {
-        const DFn &f = DFNS[i];
-        if (f.bits <= 8)
-            for (unsigned v = 0; v < (1u << f.bits); v++)
-                printf("dpr %s %016llx\n", f.name, (unsigned long long)extend(v, f.bits, f.sgn));
-        else
-            for (uint64_t v : boundary_values(r, f.bits, f.sgn, f.fmt == 'd' ? 10 : f.fmt == 'x' ? 16 : 2, th ? 200 : 30))
-                printf("dpr %s %016llx\n", f.name, (unsigned long long)v);
-    }
-    // (6) vt100_left
-    for (uint64_t v : boundary_values(r, 32, true, 10, th ? 200 : 40))
-        printf("vt %08x\n", (unsigned)(v & 0xffffffffu));
-
-    // ---------------------------------------------------------------- round 3
-    // (8) what the compiled code contains: type widths, tables, alphabets; calls made before main()
-    printf("consts\npre\ntbl h2x\ntbl dv\ntbl cty\ntbl alpha\n");
-
-    // (9) EVERY length boundary of the text: base^k - 1, base^k, base^k + 1 (and their negatives)
-    //     for every kind, every base 2..36 and every k the type can hold
-    for (int k = 0; k < NKIND; k++)
-    {
-        int bits = KBITS[k];
-        bool sgn = ksigned(k);
-        uint64_t top = sgn ? wmask(bits) >> 1 : wmask(bits);
-        for (unsigned base = 2; base <= 36; base++)
-        {
-            printf("maxlen %s %u\n", KNAME[k], base);
-            for (u128 p = base; p <= (u128)top + (sgn ? 1 : 0); p *= base)
-            {
-                uint64_t q = (uint64_t)p;
-                for (uint64_t x : {q - 1, q, q + 1})
-                {
-                    if ((u128)x <= (u128)top) printf("toa %s %u %016llx\n", KNAME[k], base, (unsigned long long)extend(x, bits, sgn));
-                    if (sgn && (u128)x <= (u128)top + 1) printf("toa %s %u %016llx\n", KNAME[k], base, (unsigned long long)extend(0 - x, bits, sgn));
-                }
-            }
-        }
-    }
-
-    // (10) debug_writehex / _reversed / writebin / _reversed / printhex_n: sizes 0, 1, .., around 256, 65535
-    {
-        auto rnd = [&](size_t n) { bytes b; for (size_t i = 0; i < n; i++) b.push_back(r.chance(20) ? (uint8_t)(r.chance(50) ? 0x00 : 0xff) : (uint8_t)r.next()); return b; };
-        for (const char *fn : {"hex", "hexr", "bin", "binr", "hexn"})
-        {
-            for (size_t size : {0u, 1u, 2u, 3u, 4u, 7u, 8u, 9u, 15u, 16u, 17u, 255u, 256u, 257u})
-                for (size_t p : {0u, 3u})
-                {
-                    bytes m = rnd(p + size);
-                    printf("wh %s %zu %zu 1 %s\n", fn, p, size, m.empty() ? "-" : hex(m).c_str());
-                }
-            // every byte value once, in order
-            bytes all;
-            for (unsigned c = 0; c < 256; c++) all.push_back((uint8_t)c);
-            printf("wh %s 0 256 1 %s\n", fn, hex(all).c_str());
-            // uint16_t size at its maximum: 255 random bytes x 257 = 65535 (output 128 KiB hex / 512 KiB binary)
-            printf("wh %s 0 65535 257 %s\n", fn, hex(rnd(255)).c_str());
-            for (int i = 0; i < (th ? 40 : 8); i++)
-            {
-                size_t size = r.range(0, 40), p = r.below(5);
-                bytes m = rnd(p + size);
-                printf("wh %s %zu %zu 1 %s\n", fn, p, size, m.empty() ? "-" : hex(m).c_str());
-            }
-        }
-    }
-    // (11) debug_print_dump: rows of 8, partial last row, printable / control / high-bit bytes in the ASCII column
-    {
-        auto rnd = [&](size_t n) {
-            bytes b;
-            for (size_t i = 0; i < n; i++)
-            {
-                int m = (int)r.below(6);
-                b.push_back(m == 0 ? (uint8_t)r.range(0, 31) : m == 1 ? (uint8_t)r.range(127, 255) : m == 2 ? (uint8_t)(r.chance(50) ? 32 : 126) : (uint8_t)r.range(32, 126));
-            }
-            return b;
-        };
-        for (size_t len : {0u, 1u, 2u, 7u, 8u, 9u, 15u, 16u, 17u, 23u, 24u, 255u, 256u, 257u})
-            for (int i = 0; i < 2; i++)
-            {
-                bytes m = rnd(len);
-                printf("dump %zu 1 %s\n", len, m.empty() ? "-" : hex(m).c_str());
-            }
-        // every value of the first byte (the row's ASCII column must not depend on it), every value in the column
-        for (unsigned c = 0; c < 256; c += th ? 1 : 5)
-        {
-            bytes m = rnd(11);
-            m[0] = (uint8_t)c;
-            printf("dump 11 1 %s\n", hex(m).c_str());
-        }
-        bytes all;
-        for (unsigned c = 0; c < 256; c++) all.push_back((uint8_t)c);
-        printf("dump 256 1 %s\n", hex(all).c_str());
-        // uint16_t len at its maximum: 8192 rows, 424 KiB of output
-        printf("dump 65535 257 %s\n", hex(rnd(255)).c_str());
-        for (int i = 0; i < (th ? 100 : 20); i++)
-        {
-            size_t len = r.range(1, 70);
-            printf("dump %zu 1 %s\n", len, hex(rnd(len)).c_str());
-        }
-    }
-    // (12) hexascii.h: fixed-width text of every byte, boundary values of the wider types, and back
-    for (unsigned v = 0; v < 256; v++) printf("hxa 8 %02x\n", v);
-    for (int W : {16, 32, 64})
-        for (uint64_t v : boundary_values(r, W, false, 16, th ? 300 : 40))
-            printf("hxa %d %016llx\n", W, (unsigned long long)v);
-    for (uint64_t v : boundary_values(r, 64, false, 16, th ? 200 : 30)) printf("dpr hex_ptr %016llx\n", (unsigned long long)v);
-
-    // (13) long texts: lengths around 255 / 65536 and beyond 300 KiB (the parsers are linear)
-    {
-        struct L { int k; unsigned base; size_t len; const char *pat; };
-        const L ls[] = {
-            {U64, 10, 307200, "1234567890"}, {I32, 36, 307201, "zZ09aA"}, {U8, 2, 320000, "10"}, {I64, 16, 65535, "fF0"},
-            {U32, 10, 65536, "9"}, {I16, 7, 65537, "6"}, {U16, 36, 255, "z"}, {I8, 10, 256, "0"}, {U64, 2, 257, "1"},
-            {I64, 10, 400000, "0"}, // 400 000 leading zeros are digits
-        };
-        for (const L &l : ls)
-            for (const char *tail : {"", "x", "-", " 1"})
-            {
-                std::string pat = l.pat;
-                if (ksigned(l.k) && tail[0] == 'x') pat = std::string(l.pat); // same text; the sign variant follows
-                printf("atorep %s %u %zu %s %s\n", KNAME[l.k], l.base, l.len, hex(pat).c_str(), hex(std::string(tail) + std::string(1, '\0')).c_str());
-            }
-        // a '-' in front of a long text: the pattern cannot hold it, so it is the first tail-less variant
-        printf("atorep i64 10 0 - %s\n", hex(std::string("-") + std::string(300, '7') + std::string(1, '\0')).c_str());
-        for (int i = 0; i < (th ? 60 : 12); i++)
-        {
-            int k = (int)r.below(NKIND);
-            unsigned base = (unsigned)r.range(2, 36);
-            printf("atorep %s %u %zu %s %s\n", KNAME[k], base, (size_t)r.range(0, 3000), hex(digit_string(r, base, (int)r.range(1, 9))).c_str(),
-                   hex(std::string(1, (char)r.next()) + std::string(1, '\0')).c_str());
-        }
-    }
-    // (15) the asmlink self-test printers, dprptr / dprptrln, debug_print(NULL)
-    for (int W : {8, 16, 32})
-        for (int n = 1; n <= 4; n++)
-            for (int i = 0; i < (th ? 40 : 8); i++)
-            {
-                std::string l = "asml " + std::to_string(W);
-                std::vector<uint64_t> bv = boundary_values(r, W, false, 16, 4);
-                for (int j = 0; j < n; j++) l += " " + hexn(bv[r.below(bv.size())] & wmask(W), W / 4);
-                printf("%s\n", l.c_str());
-            }
-    for (uint64_t v : boundary_values(r, 64, false, 16, th ? 60 : 10)) printf("asmr %016llx\n", (unsigned long long)v);
-    // (16) the copy in igris/container/std_portable.h.  Where it agrees with the property (renderings of
-    // every value but the minimum of a signed type) it runs in the compared stream; the rest is finding
-    // C07-std-portable-twin (end pointer, base-blind digit test, lower-case hex2half, negation of the minimum)
-    for (int k = 0; k < NKIND; k++)
-        for (unsigned base : {2u, 10u, 16u, 36u, (unsigned)r.range(3, 35)})
-            for (uint64_t v : boundary_values(r, KBITS[k], ksigned(k), base, 2))
-            {
-                bool is_min = ksigned(k) && (v & wmask(KBITS[k])) == (1ull << (KBITS[k] - 1));
-                bool neg = ksigned(k) && ((v >> (KBITS[k] - 1)) & 1);
-                // the copy parses back with the unrepaired parser: only renderings whose parse-back it gets
-                // right could be compared, and it gets none right (end pointer) -> every toa is a probe too
-                (void)neg;
-                if (is_min) continue; // -num on the minimum: one probe below (a sanitizer abort restarts the harness)
-                printf("@F:C07-std-portable-twin twin toa %s %u %016llx\n", KNAME[k], base, (unsigned long long)v);
-            }
-    for (const char *t : {"3132337800", "00", "666600", "5a00", "3132616200"})
-        printf("@F:C07-std-portable-twin twin ato u32 %s %s\n", t[0] == '6' ? "16" : t[0] == '5' ? "36" : "10", t);
-    for (unsigned c = 'a'; c <= 'f'; c++) printf("@F:C07-std-portable-twin twin h2h %02x\n", c);
-    for (unsigned c : {0x30u, 0x39u, 0x41u, 0x46u}) printf("twin h2h %02x\n", c);
-    // (14) one buffer, several calls: a long text first, shorter ones over it, bad bases in between
-    for (int i = 0; i < (th ? 400 : 80); i++)
-    {
-        int k = (int)r.below(NKIND);
-        std::vector<uint64_t> bv = boundary_values(r, KBITS[k], ksigned(k), 2, 2);
-        uint64_t v = bv[r.below(bv.size())];
-        std::string bs = "2";
-        int n = (int)r.range(1, 4);
-        for (int j = 0; j < n; j++) bs += "," + std::to_string(r.chance(12) ? (unsigned)(r.chance(50) ? 0 : 37) : (unsigned)r.range(2, 36));
-        printf("seq %s %016llx %s\n", KNAME[k], (unsigned long long)v, bs.c_str());
-    }
-
-}
-
-// (7) thorough: every 32-bit value in base 10 and 16, oracle only.  bin/check runs the seeds
-// s*1000+0..NPART-1 in parallel; seed % NPART selects the share of the 32-bit space.
-static void gen_wrapper(rng &r, const std::string &tier)
-{
-    // the one probe that ends in a sanitizer abort (-num on INT64_MIN in the std_portable.h copy) comes FIRST:
-    // the harness process that runs it dies without writing its coverage counters (bin/cov), the restarted one
-    // runs everything else and exits normally
-    printf("@F:C07-std-portable-twin twin toa i64 10 8000000000000000\n");
-    gen(r, tier);
-    if (tier != "thorough") return;
-    uint64_t part = g_seed % NPART, span = (1ull << 32) / NPART;
-    const uint64_t CH = 1ull << 18; // ~0.1 s per op: far below the 3 s per-op watchdog even on a loaded machine
-    static const int K2[2] = {I32, U32};
-    static const unsigned B2[2] = {10u, 16u};
-    for (int ki = 0; ki < 2; ki++)
-        for (int bi = 0; bi < 2; bi++)
-            for (uint64_t lo = part * span; lo < (part + 1) * span; lo += CH)
-                printf("sweep %s %u %016llx %llu\n", KNAME[K2[ki]], B2[bi], (unsigned long long)extend(lo, 32, K2[ki] == I32), (unsigned long long)CH);
-    // round 3: bases 2, 8 and 36 strided over the whole 32-bit space: in every 8th window of 2^22 values the
-    // seed's own 2^18 consecutive ones (the 16 seeds together: 1/8 of the space per kind and base, 2^29 values,
-    // every residue class of the window offset)
-    static const unsigned B3[3] = {2u, 8u, 36u};
-    for (int ki = 0; ki < 2; ki++)
-        for (int bi = 0; bi < 3; bi++)
-            for (uint64_t win = 0; win < (1ull << 32); win += (1ull << 22))
-                if ((win >> 22) % 8 == (g_seed / NPART + bi + 3 * ki) % 8)
-                    printf("sweep %s %u %016llx %llu\n", KNAME[K2[ki]], B3[bi], (unsigned long long)extend(win + part * CH, 32, K2[ki] == I32), (unsigned long long)CH);
-}
+extern "C" unsigned char c07_real_hex2half(char c) { return hex2half(c); }
+uint64_t g_seed = 1;
 
 int main(int argc, char **argv)
 {
     if (argc >= 3) g_seed = strtoull(argv[2], 0, 10);
     return main_(argc, argv, gen_wrapper, run_op);
 }
+
